@@ -238,6 +238,51 @@ func RunC17(c *Ctx) {
 			}
 		}
 	}
+	// window straddle: long strings in which a valid multi-byte character lies across a multiple of
+	// a power of two (fixed-size conversion windows must not split it), with and without an
+	// invalid byte elsewhere (seeded change C17r5-m1: 512-byte windows behind a utf8.ValidString
+	// fast path)
+	ws := &h.Case{Family: "window-straddle"}
+	runes := []string{"\u00e9", "\u20ac", "\U0001F600", "\uFFFD"}
+	wcount := 0
+	for _, B := range []int{8, 16, 32, 64, 128, 256, 512, 1024, 2048, 4096, 8192} {
+		for mult := 1; mult <= 3; mult++ {
+			for ri, rn := range runes {
+				for j := 0; j <= len(rn); j++ {
+					for inv := 0; inv < 4; inv++ {
+						wcount++
+						if c.NShards > 1 && wcount%c.NShards != c.Shard {
+							continue
+						}
+						off := B*mult - j
+						if off < 1 {
+							continue
+						}
+						b := make([]byte, 0, B*mult+16)
+						for len(b) < off {
+							b = append(b, fill[len(b)%len(fill)])
+						}
+						b = append(b, rn...)
+						b = append(b, "tail-end"...)
+						switch inv {
+						case 1:
+							b[0] = 0xff
+						case 2:
+							b[len(b)-1] = 0xff
+						case 3:
+							b = append(b[:off+len(rn)], append([]byte{0x80}, b[off+len(rn):]...)...)
+						}
+						c.Rec.R.Cases++
+						c.Rec.R.Nontrivial++
+						c.Rec.C("window_straddle_cases")
+						ws.Input = b
+						ws.Desc = fmt.Sprintf("character #%d starting %d bytes before offset %d, invalid-byte placement %d", ri, j, B*mult, inv)
+						checkCompatString(c, ws, b)
+					}
+				}
+			}
+		}
+	}
 	// value trees
 	nt := 60000
 	if c.Thorough() {
